@@ -6,6 +6,21 @@ VERIF = os.path.dirname(os.path.dirname(os.path.abspath(__file__)))
 
 # id -> (level category, technique, level text, level note, design ref)
 CHECKS = {
+    "C14": ("exploration",
+            "model-based stateful testing: canonical type-state paths + proptest-random operation histories, each in a forked process; oracle = kernel bookkeeping (/proc/self/smaps, VmLck) and forked access probes (SIGSEGV verdicts)",
+            "After every step of every history the kernel's view must match the model of the type state: per-page rights, lock flag, total locked size, guard pages, contents; forbidden accesses are performed in forked probes and must fault; after the last drop no locked or re-protected page may remain. Histories shrink to minimal sequences.",
+            "Linux/x86-64 with 4 KiB pages only; bounded history depth and three live regions; the allocation observer hook supplies allocation sizes for the guard-page check.",
+            "DESIGN.md §3 C14"),
+    "C15": ("exploration",
+            "model-based stateful testing with a feature-guarded release observer in the allocator; invariant over the whole history: every release is all-zero and allocations/releases balance",
+            "Histories of fill / resize up and down / clone / lock / protect / drop over heap and protected containers, and library operations producing protected outputs, run in forked processes; the observer placed immediately before free reports the non-zero byte count of the entire allocation, which must be 0 for every release.",
+            "Relies on the verif_hooks observer (checked to be connected); Linux only; bounded depth.",
+            "DESIGN.md §3 C15"),
+    "C19": ("fault_enumeration",
+            "fault injection by symbol interposition (k-th and later mlock refused) crossed with model-based histories; for each history every k up to the number of lock calls is enumerated",
+            "For each history the fault-free run counts lock calls; then for every k the run with the k-th and later mlock refused must not panic or crash, must return Err from the faulted Result-returning call, must keep earlier regions correctly protected (C14 oracle), wipe on release (C15 observer) and end with no residual locks.",
+            "Only lock refusal is injected (ENOMEM from an interposed mlock); Clone/resize of locked regions (not Result-returning) are not generated at or after the fault point.",
+            "DESIGN.md §3 C19"),
     "C09": ("exploration",
             "parameter-grid enumeration + proptest random parameter sets with shrinking; differential vs libsodium's public and internal Argon2 and (thorough) a pure-Python RFC 9106 implementation",
             "Every output length 16..=160, every memory size 8..=64 KiB x t 1..=3 x both algorithms, password and salt length sweeps, larger memories, an out-of-range table that must Err without allocating, and thousands of random parameter tuples (outlen up to 1100, salts 8..=64, t up to 6) are compared byte-for-byte with libsodium; PwHash verify accepts only the generating password.",
